@@ -98,6 +98,8 @@ pub mod verif_pathset;
 pub(crate) mod reliability;
 /// Path fetcher traits and types.
 pub mod traits;
+#[cfg(anapaya_scion_sdk_verif)]
+pub mod verif_sync;
 
 /// Configuration for the `MultiPathManager`.
 #[derive(Debug, Clone, Copy)]
@@ -341,8 +343,12 @@ impl<F: PathFetcher> MultiPathManager<F> {
         let res = match try_path {
             Some(active) => Ok(active),
             None => {
+                #[cfg(anapaya_scion_sdk_verif)]
+                verif_sync::yield_point("path.after_peek");
                 // Ensure paths are being managed
                 let path_set = self.ensure_managed_paths(src, dst);
+                #[cfg(anapaya_scion_sdk_verif)]
+                verif_sync::yield_point("path.after_ensure");
 
                 // Try to get active path, possibly waiting for initialization/update
                 let active = path_set.active_path().await.as_ref().map(|p| p.0.clone());
@@ -404,9 +410,13 @@ impl<F: PathFetcher> MultiPathManager<F> {
     ///
     /// Returns a reference to the managed paths.
     fn ensure_managed_paths(&self, src: IsdAsn, dst: IsdAsn) -> PathSetHandle {
+        #[cfg(anapaya_scion_sdk_verif)]
+        let _verif_map = verif_sync::map_guard();
         let entry = match self.0.managed_paths.entry_sync((src, dst)) {
             scc::hash_index::Entry::Occupied(occupied) => {
                 tracing::trace!(%src, %dst, "Already managing paths for src-dst pair");
+                #[cfg(anapaya_scion_sdk_verif)]
+                verif_sync::map_load(&occupied.get().0.shared, src, dst);
                 occupied
             }
             scc::hash_index::Entry::Vacant(vacant) => {
@@ -423,6 +433,8 @@ impl<F: PathFetcher> MultiPathManager<F> {
                         .issues_subscriber(),
                 );
 
+                #[cfg(anapaya_scion_sdk_verif)]
+                verif_sync::map_insert(&managed.shared, src, dst);
                 vacant.insert_entry(managed.manage())
             }
         };
@@ -432,7 +444,11 @@ impl<F: PathFetcher> MultiPathManager<F> {
 
     /// Stops managing paths for the given src-dst pair.
     pub fn stop_managing_paths(&self, src: IsdAsn, dst: IsdAsn) {
+        #[cfg(anapaya_scion_sdk_verif)]
+        let _verif_map = verif_sync::map_guard();
         if self.0.managed_paths.remove_sync(&(src, dst)) {
+            #[cfg(anapaya_scion_sdk_verif)]
+            verif_sync::map_remove(src, dst);
             tracing::info!(%src, %dst, "Stopped managing paths for src-dst pair");
         }
     }
